@@ -324,6 +324,14 @@ func C03(c *Ctx) {
 				}
 			}
 		}
+		anyRuleReturn := false
+		for _, f := range scope {
+			for _, ret := range core.Returns(f) {
+				if len(ret.Results) == 2 && strings.HasSuffix(ret.Results[0].Type().String(), "rule-mgr.Rule") {
+					anyRuleReturn = true
+				}
+			}
+		}
 		for _, f := range scope {
 			avail := condEdges(f, func(fc core.Fact, ifi *ssa.If) (bool, int) {
 				if fc.Kind == core.FEqConst && fc.Field == "Status" && fc.Const == "available" {
@@ -337,13 +345,27 @@ func C03(c *Ctx) {
 				if len(ret.Results) != 2 {
 					continue
 				}
-				// returns of a (possibly non-nil) *Rule
-				if !strings.HasSuffix(ret.Results[0].Type().String(), "rule-mgr.Rule") {
+				// returns of a (possibly non-nil) *Rule - or, when the selection is folded into getValidateAddress itself,
+				// of the Address of a rule
+				isRule := strings.HasSuffix(ret.Results[0].Type().String(), "rule-mgr.Rule")
+				isAddr := false
+				if !isRule && f == gv && !anyRuleReturn {
+					isAddr = core.Mentions(ret.Results[0], func(v ssa.Value) bool {
+						o, fld, _, ok := core.FieldOf(v)
+						return ok && fld == "Address" && strings.HasSuffix(o, "rule-mgr.Rule")
+					})
+				}
+				if !isRule && !isAddr {
 					continue
 				}
 				for _, o := range core.RetOrigins(ret.Results[0]) {
 					if core.IsNilConst(o.V) {
 						continue
+					}
+					if isAddr {
+						if k, isK := o.V.(*ssa.Const); isK && k.Value != nil {
+							continue
+						}
 					}
 					n++
 					r.Check(!core.OriginReachable(rs, cut, ret, o), "R03.4", "getValidateAddress: rule selected only when available", c.P.Pos(ret.Pos()), "the selected rule is returned only across Status == GovernanceAvailable",
